@@ -108,8 +108,15 @@ Definition run_deck (t : tables) (tbl : table) : out :=
 
 (* case (a): the dictionary of get_cells, the tables, and what
    ParseMCNPCell(...).parse() returned (cells, skipped) or raised *)
+(* EUnsupported is the model saying "outside what I model" (LOG / ILOG in a FILL
+   array, a FILL array of size 0); it depends on the input only, never on what
+   the implementation did: such a deck is not a disagreement *)
 Definition check_deck (c : tables * table * out) : bool :=
-  let '(t, tbl, expected) := c in out_eqb (run_deck t tbl) expected.
+  let '(t, tbl, expected) := c in
+  match run_deck t tbl with
+  | Err EUnsupported => true
+  | r => out_eqb r expected
+  end.
 
 (* case (b): a LIKE card's text and what cellcard.split returned *)
 Definition check_split (c : string * option (string * string * string)) : bool :=
